@@ -263,7 +263,7 @@ def run(shard, ctx):
                 check_rendered(ctx, report, p, {"profile": list(p), "mode": "injected"})
         # thresholds at LARGE totals: the verdict's 20 % boundary and the 0.001 % rule sit on windows that only open when the
         # total is large (a share in (20 %, 20.001 %] needs a total >= 20000); every one of these goes through the renderers
-        totals = [10 ** e for e in range(3, 9)] + [20000, 20005, 99999, 100001, 123457, 5 * 10 ** 5, 2 * 10 ** 6 + 3]
+        totals = [10 ** e for e in range(3, 9)] + [200, 201, 250, 400, 7031, 18061, 20000, 20005, 99999, 100001, 123457, 5 * 10 ** 5, 2 * 10 ** 6 + 3]
         totals += [rng.randint(10 ** 3, 10 ** 8) for _ in range(6)]
         k2 = 0
         for T in totals:
@@ -278,6 +278,12 @@ def run(shard, ctx):
                     fams += [(T - u, 0, 0, u), (T - u - 1, 0, u, 1 if T - u - 1 >= 0 else 0)]
                 half = T // 2 + d
                 fams.append((0, 0, half, T - half))
+            # nearly everything in ONE severe category, a sliver in the other (and possibly a sliver of easy code): a share above
+            # 0.001 % must never be shown as 0 %
+            for u in sorted({1, 2, 3, 7, T // 1000, T // 300, T // 201, T // 200, T // 199, T // 150, T // 100 + 1} - {0}):
+                for e in (0, 1, 3):
+                    if T - u - e > 0:
+                        fams += [(e, 0, T - u - e, u), (e, 0, u, T - u - e), (0, e, T - u - e, u), (0, e, u, T - u - e)]
             for p in fams:
                 if min(p) < 0:
                     continue
